@@ -419,17 +419,22 @@ type Stat struct {
 }
 
 //go:norace
-func (i *info) Name() string       { return i.name }
+func (i *info) Name() string { return i.name }
+
 //go:norace
-func (i *info) Size() int64        { return i.size }
+func (i *info) Size() int64 { return i.size }
+
 //go:norace
-func (i *info) Mode() os.FileMode  { return i.mode }
+func (i *info) Mode() os.FileMode { return i.mode }
+
 //go:norace
 func (i *info) ModTime() time.Time { return i.mtime }
+
 //go:norace
-func (i *info) IsDir() bool        { return i.mode.IsDir() }
+func (i *info) IsDir() bool { return i.mode.IsDir() }
+
 //go:norace
-func (i *info) Sys() any           { return i.in }
+func (i *info) Sys() any { return i.in }
 
 //go:norace
 func (in *Inode) mode() os.FileMode {
@@ -462,11 +467,14 @@ func (in *Inode) info(name string) os.FileInfo {
 type dirEntry struct{ fi os.FileInfo }
 
 //go:norace
-func (d dirEntry) Name() string               { return d.fi.Name() }
+func (d dirEntry) Name() string { return d.fi.Name() }
+
 //go:norace
-func (d dirEntry) IsDir() bool                { return d.fi.IsDir() }
+func (d dirEntry) IsDir() bool { return d.fi.IsDir() }
+
 //go:norace
-func (d dirEntry) Type() fs.FileMode          { return d.fi.Mode().Type() }
+func (d dirEntry) Type() fs.FileMode { return d.fi.Mode().Type() }
+
 //go:norace
 func (d dirEntry) Info() (fs.FileInfo, error) { return d.fi, nil }
 
@@ -810,7 +818,8 @@ func (v *View) statCommon(op, name string, follow bool) (os.FileInfo, error) {
 }
 
 //go:norace
-func (v *View) Stat(name string) (os.FileInfo, error)  { return v.statCommon("Stat", name, true) }
+func (v *View) Stat(name string) (os.FileInfo, error) { return v.statCommon("Stat", name, true) }
+
 //go:norace
 func (v *View) Lstat(name string) (os.FileInfo, error) { return v.statCommon("Lstat", name, false) }
 
@@ -1008,12 +1017,15 @@ func (v *View) ReadFile(name string) ([]byte, error) {
 
 //go:norace
 func (v *View) Sub(dir string) (fs.FS, error) { return nil, absfs.ErrNotImplemented }
+
 //go:norace
-func (v *View) Chdir(dir string) error         { v.cwd = clean(dir); return nil }
+func (v *View) Chdir(dir string) error { v.cwd = clean(dir); return nil }
+
 //go:norace
-func (v *View) Getwd() (string, error)         { return v.cwd, nil }
+func (v *View) Getwd() (string, error) { return v.cwd, nil }
+
 //go:norace
-func (v *View) TempDir() string                { return "/tmp" }
+func (v *View) TempDir() string { return "/tmp" }
 
 var _ absfs.SymlinkFileSystem = (*View)(nil)
 
